@@ -122,3 +122,79 @@ def install_plus_days_contract():
 
     F.add = add
     stubs.STUBS_IN_FORCE.append("contract:_FixedLengthDatePeriodField.add on DayCalendar dates = day number + n, OverflowError outside the range (C09)")
+
+
+def _real_record(days, ordinal):
+    """the real (year, month, day, calendar) record of a day number, through the calendar's REAL day -> date conversion"""
+    from pyoda_time import CalendarSystem
+    from pyoda_time._calendar_ordinal import _CalendarOrdinal
+    from props import ymdrecord
+    calc = CalendarSystem._for_ordinal(_CalendarOrdinal(int(ordinal)))._year_month_day_calculator
+    ymd = calc._get_year_month_day_from_days_since_epoch(days)
+    return ymdrecord.YMDC(ymd._year, ymd._month, ymd._day, ordinal)
+
+
+class _Lazy:
+    """Known by its day number; anything else (year / month / day, record methods) is delegated on demand to the real record: only code
+    that goes on to do month or year arithmetic on the result of plus_days needs it."""
+
+    def _real_obj(self):
+        raise NotImplementedError
+
+    def __getattr__(self, name):
+        if name.startswith("__"):
+            raise AttributeError(name)
+        real = self.__dict__.get("_real")
+        if real is None:
+            real = self.__dict__["_real"] = self._real_obj()
+        return getattr(real, name)
+
+
+class _DayYMD(_Lazy):
+    def __init__(self, days, ordinal):
+        self.days, self._ord = days, ordinal
+
+    def _real_obj(self):
+        return _real_record(self.days, self._ord)._to_year_month_day()
+
+
+class _DayDate(_Lazy):
+    """year-month-day-calendar record of a date known only by its day number (result of plus_days under the C09 contract)"""
+
+    def __init__(self, days, ordinal):
+        self.days, self._calendar_ordinal = days, ordinal
+
+    def _to_year_month_day(self):
+        return _DayYMD(self.days, self._calendar_ordinal)
+
+    def _real_obj(self):
+        return _real_record(self.days, self._calendar_ordinal)
+
+
+_iso_plus_days_contract = []
+
+
+def install_iso_plus_days_contract():
+    """LocalDate.plus_days on ISO dates by contract (C09: the result is the date whose day number is the operand's + n, OverflowError
+    outside the calendar's range); the result carries its day number only.  Assigned on the classes: in force in symbolic runs and
+    concrete replays alike."""
+    if _iso_plus_days_contract:
+        return
+    _iso_plus_days_contract.append(1)
+    from pyoda_time import LocalDate
+    from pyoda_time.calendars._gregorian_year_month_day_calculator import _GregorianYearMonthDayCalculator as G
+    from pyoda_time.fields._fixed_length_date_period_field import _FixedLengthDatePeriodField as F
+    real_dse = G._get_days_since_epoch
+
+    def dse(self, ymd):
+        return ymd.days if hasattr(ymd, "days") else real_dse(self, ymd)
+
+    def add(self, local_date, value):
+        cal = local_date.calendar
+        new = local_date._days_since_epoch + value * self._FixedLengthDatePeriodField__unit_days
+        if not (cal._min_days <= new <= cal._max_days):
+            raise OverflowError("date computation leaves the calendar range")
+        return LocalDate._ctor(year_month_day_calendar=_DayDate(new, cal._ordinal))
+    G._get_days_since_epoch = dse
+    F.add = add
+    stubs.STUBS_IN_FORCE.append("contract:_FixedLengthDatePeriodField.add = day number + n (C09.plusdays on the real calendars); the result is known by its day number")
